@@ -261,15 +261,9 @@ def routed_lit(rt):
 
 
 def ievents(evs):
-    """M and first D only (the model is absorbing after defunct)"""
-    out = []
-    for e in evs:
-        if e[0] == 'M':
-            out.append(e)
-        elif e[0] == 'D':
-            out.append(e)
-            break
-    return out
+    """every delivery and the defunct, in order.  Deliveries AFTER the defunct are kept: the model delivers nothing after a
+    failure, so anything the implementation still hands to process_msg shows up as a disagreement."""
+    return [e for e in evs if e[0] in ('M', 'D')]
 
 
 # ---------------------------------------------------------------- v5 segments (C06)
